@@ -30,6 +30,7 @@ def env_clean():
     e["BGMODEL"] = os.path.join(LEAN, ".lake", "build", "bin", "bgmodel")
     e["BINDGEN_CLI"] = os.path.join(TARGET, "debug", "bindgen")
     e["VERIF_DIR"] = VERIF
+    e["VERIF_REPO"] = REPO
     return e
 
 
@@ -195,9 +196,21 @@ def run_model(lines, timeout=3600):
 
 HOOK_RUSTFLAGS = "--cfg bindgen_verif"
 
+def ensure_repo_link():
+    """harness/.repo -> the tree under verification (VERIF_REPO, default /repo)."""
+    link = os.path.join(HARNESS, ".repo")
+    want = os.path.realpath(REPO)
+    if os.path.islink(link) and os.path.realpath(link) == want:
+        return
+    if os.path.lexists(link):
+        os.remove(link)
+    os.symlink(want, link)
+
+
 def cargo_build_harness(bins=None, timeout=3600):
     """Build the harness (and through its path dependency, bindgen from /repo's working
     tree with hooks on).  Returns (ok, log)."""
+    ensure_repo_link()
     lock = os.path.join(HARNESS, "Cargo.lock")
     if not os.path.exists(lock):
         shutil.copy(os.path.join(REPO, "Cargo.lock"), lock)
